@@ -42,7 +42,7 @@ def elem_name(dtype) -> str:
 
 # ----------------------------------------------------------------------------- types <-> JSON
 def ty_to_json(t) -> Any:
-    from spox._type_system import Tensor
+    from spox import Tensor
 
     if t is None:
         return None
@@ -53,7 +53,7 @@ def ty_to_json(t) -> Any:
 
 
 def ty_from_json(j):
-    from spox._type_system import Tensor
+    from spox import Tensor
 
     if j is None:
         return None
@@ -63,7 +63,7 @@ def ty_from_json(j):
 def mk_var(j):
     """A fresh argument Var of the given type; `null` gives an untyped Var."""
     from spox import argument
-    from spox._type_system import Tensor
+    from spox import Tensor
 
     import warnings
 
@@ -412,7 +412,7 @@ class Compress(Op):
         return _op17().compress
 
     def attr_classes(self):
-        return [{"a": None}, {"a": 0}, {"a": 1}, {"a": 2}, {"a": -1}, {"a": -2}, {"a": 3}, {"a": -4}]
+        return [{"a": None}, {"a": 0}, {"a": 1}, {"a": 2}, {"a": -1}, {"a": -2}, {"a": -3}, {"a": 3}, {"a": -4}]
 
     def kwargs(self, a, shapes=None):
         return {} if a.get("a") is None else {"axis": a["a"]}
@@ -432,7 +432,7 @@ class OneHot(Op):
         return _op17().one_hot
 
     def attr_classes(self):
-        return [{"a": -1}, {"a": 0}, {"a": 1}, {"a": -2}]
+        return [{"a": -1}, {"a": 0}, {"a": 1}, {"a": -2}, {"a": -3}, {"a": 2}]
 
     def kwargs(self, a, shapes=None):
         return {"axis": a["a"]}
